@@ -472,3 +472,49 @@ Example C10_kernel_model_differs_on_intransitive_ties :
      AVArrF [9; 9]%float]
   = Ok (RI 0, [VArrF (List.concat cx_sim); VArrF [9; 1; 9; 9]%float; VArrF [2; 1]%float]).
 Proof. exact ensrank_model_differs. Qed.
+
+(* ================================================================== *)
+(* BINARY64 instances of the ensemble-ranking refinement (laws about  *)
+(* comparisons and exact integer conversion proved for IEEE binary64). *)
+(* ================================================================== *)
+From Coq Require Import String Lia PrimFloat.
+From Hy Require Import Base.Num Base.MiniC Gen.KernelsAst Gen.Consts Model.Dscore.
+From Hy Require Proofs.F64Laws Proofs.RefineEnsrank.
+Import ListNotations.
+Open Scope string_scope.
+Open Scope list_scope.
+Open Scope Z_scope.
+
+(* c_ensrank in binary64 = the model with glibc's merge sort, ensembles of at most 2^52 members (member indices are compared as doubles) *)
+Theorem C10_kernel_ensrank_refines_model_with_glibc_sort_binary64 :
+  forall (eps : float) (sim : list (list float)) (ncol : nat) (fmat ranks : list float)
+         (n : nat),
+       2 * Z.of_nat ncol <= 2 ^ 53 ->
+       Forall (fun r : list float => Datatypes.length r = ncol) sim ->
+       Datatypes.length fmat = (Datatypes.length sim * Datatypes.length sim)%nat ->
+       Datatypes.length ranks = Datatypes.length sim ->
+       (Nat.max (Datatypes.length sim) (2 * ncol) < n)%nat ->
+       exec_fun F64 XF64 program (S n) "c_ensrank"
+         [AVF eps; AVI (Z.of_nat (Datatypes.length sim)); AVI (Z.of_nat ncol);
+          AVArrF (List.concat sim); AVArrF fmat; AVArrF ranks] =
+       Ok
+         (RefineEnsrank.ens_outputs
+            (RefineEnsrank.ensrank_s F64 KF (RefineEnsrank.qs F64 KF) eps sim) sim fmat ranks).
+Proof. exact @F64Laws.refine_c_ensrank_qsort_F64. Qed.
+Print Assumptions C10_kernel_ensrank_refines_model_with_glibc_sort_binary64.
+
+Theorem C10_kernel_ensrank_refines_model_binary64 :
+  forall (eps : float) (sim : list (list float)) (ncol : nat) (fmat ranks : list float)
+         (n : nat),
+       2 * Z.of_nat ncol <= 2 ^ 53 ->
+       RefineEnsrank.pairs_agree F64 KF sim ->
+       Forall (fun r : list float => Datatypes.length r = ncol) sim ->
+       Datatypes.length fmat = (Datatypes.length sim * Datatypes.length sim)%nat ->
+       Datatypes.length ranks = Datatypes.length sim ->
+       (Nat.max (Datatypes.length sim) (2 * ncol) < n)%nat ->
+       exec_fun F64 XF64 program (S n) "c_ensrank"
+         [AVF eps; AVI (Z.of_nat (Datatypes.length sim)); AVI (Z.of_nat ncol);
+          AVArrF (List.concat sim); AVArrF fmat; AVArrF ranks] =
+       Ok (RefineEnsrank.ens_outputs (ensrank F64 KF eps sim) sim fmat ranks).
+Proof. exact @F64Laws.refine_c_ensrank_F64. Qed.
+Print Assumptions C10_kernel_ensrank_refines_model_binary64.
